@@ -488,7 +488,9 @@ func (a *analysis) checkRecovery(x *verifkit.Exec) {
 		status string
 		seq    int
 		t      time.Duration
+		live   bool // a source connector was open when the status was written
 	}
+	srcOpenNow := 0
 	var sts []stEv
 	var opens []verifkit.Event
 	fatalInjected, fatalInjectedSeq := "", -1 // a cause the property lists as fatal entered the engine
@@ -504,10 +506,15 @@ func (a *analysis) checkRecovery(x *verifkit.Exec) {
 			if len(parts) == 2 {
 				_, status, _ := stack.ParseDescribe(parts[1])
 				if status != "" && (len(sts) == 0 || sts[len(sts)-1].status != status) {
-					sts = append(sts, stEv{status, e.Seq, e.T})
+					sts = append(sts, stEv{status, e.Seq, e.T, srcOpenNow > 0})
 				}
 			}
+		case isSource(e.Comp) && e.Kind == "teardown":
+			if srcOpenNow > 0 {
+				srcOpenNow--
+			}
 		case isSource(e.Comp) && e.Kind == "open":
+			srcOpenNow++
 			opens = append(opens, e)
 			transientInRun = 0
 		case e.Comp == "dlq" && e.Kind == "runerr":
@@ -577,6 +584,11 @@ func (a *analysis) checkRecovery(x *verifkit.Exec) {
 	var autoRestartSeq []int
 	for si, s := range sts {
 		if s.status != "Recovering" {
+			continue
+		}
+		if s.live {
+			// written while a (newer) run was already live: the status write of the failed run landed late, after a user
+			// start replaced it - no automatic restart belongs to it
 			continue
 		}
 		// the status may land after a user start already replaced the failed run (the write was still in flight): the
